@@ -39,6 +39,7 @@ package store
 //@   ensures fresh(r.namespaces) && fresh(r.attributes) && fresh(r.nodes)                                      @own-lists
 
 //@ func findNamespace(cursor, prefix) (r)
+//@   pure
 //@   property C10 C09 C13 C15
 //@   uses strval nodekinds
 //@   requires cursor != nil && $NSOK(cursor)$
@@ -79,3 +80,46 @@ package store
 //@   property C10 C13 C15
 //@   requires c != nil
 //@   ensures r == c.parent
+
+//@ macro PN = Ptr_store_InMemory
+//@ macro LISTOK(c, lst) = (forall k Int :: 0 <= k && k < len(c.lst) ==> c.lst[k] != nil && isa(c.lst[k]) && c.lst[k].parent == c && c.lst[k].pos > c.pos)
+
+//@ func addNamespace(ns, cursor, pos) (r)
+//@   property C10 C09 C13 C15
+//@   uses strval nodekinds
+//@   requires cursor != nil && isa(cursor) && ns != nil && isNS(ns) && $NSOK(cursor)$ && pos >= cursor.pos
+//@   requires forall k Int :: 0 <= k && k < len(cursor.namespaces) ==> cursor.namespaces[k].pos > cursor.pos && cursor.namespaces[k].pos <= pos   @positions-in-range
+//@   modifies cursor.namespaces, arr(cursor.namespaces)
+//@   ensures $NSOK(cursor)$                                                                                           @every-namespace-node-belongs-to-the-element
+//@   ensures (r == pos && len(cursor.namespaces) == old(len(cursor.namespaces))) || (r == pos + 1 && len(cursor.namespaces) == old(len(cursor.namespaces)) + 1)   @replace-or-append
+//@   ensures forall k Int :: 0 <= k && k < len(cursor.namespaces) ==> cursor.namespaces[k].pos > cursor.pos && cursor.namespaces[k].pos <= r                      @positions-in-range
+//@   ensures forall k Int :: 0 <= k && k < old(len(cursor.namespaces)) ==> cursor.namespaces[k].pos == old(cursor.namespaces[k].pos)                              @positions-kept
+//@   ensures r == pos + 1 ==> cursor.namespaces[len(cursor.namespaces) - 1].pos == pos + 1 && fresh(cursor.namespaces[len(cursor.namespaces) - 1])               @new-node-next-position
+//@   ensures exists k Int :: 0 <= k && k < len(cursor.namespaces) && cursor.namespaces[k].node == ns && fresh(cursor.namespaces[k])                               @declaration-present
+//@   ensures arr(cursor.namespaces) == old(arr(cursor.namespaces)) || fresh(cursor.namespaces)
+
+//@ macro NSPOS(c, hi) = (forall k Int :: 0 <= k && k < len(c.namespaces) ==> c.namespaces[k].pos > c.pos && c.namespaces[k].pos <= hi)
+//@ macro PNS = cursor.parent.namespaces
+
+//@ func inheritNamespaces(cursor, pos0) (r)
+//@   property C10 C09 C13 C15
+//@   uses strval nodekinds
+//@   requires cursor != nil && isa(cursor) && cursor.parent != nil && isa(cursor.parent) && cursor.parent != cursor
+//@   requires $NSOK(cursor)$ && $NSOK(cursor.parent)$ && pos0 >= cursor.pos && $NSPOS(cursor, pos0)$
+//@   requires arr(cursor.namespaces) != arr(cursor.parent.namespaces) && wf(cursor.namespaces) && wf(cursor.parent.namespaces)   @own-list
+//@   modifies cursor.namespaces, arr(cursor.namespaces)
+//@   ensures $NSOK(cursor)$ && $NSOK(cursor.parent)$                                                            @every-namespace-node-belongs-to-its-element
+//@   ensures r >= pos0 && $NSPOS(cursor, r)$ && len(cursor.namespaces) >= old(len(cursor.namespaces))           @positions-in-range
+//@   ensures forall k Int :: 0 <= k && k < old(len(cursor.namespaces)) ==> cursor.namespaces[k] == old(cursor.namespaces[k])   @own-declarations-kept
+//@   ensures forall k Int :: old(len(cursor.namespaces)) <= k && k < len(cursor.namespaces) ==> fresh(cursor.namespaces[k]) && cursor.namespaces[k].pos > pos0   @inherited-nodes-are-new-nodes
+//@   ensures forall k Int :: { cursor.parent.namespaces[k] } 0 <= k && k < len(cursor.parent.namespaces) ==> cursor.parent.namespaces[k] != nil && exists j Int :: 0 <= j && j < len(cursor.namespaces) && nsPrefix(cursor.namespaces[j].node) == nsPrefix(cursor.parent.namespaces[k].node)   @every-prefix-in-scope
+//@   ensures arr(cursor.namespaces) != arr(cursor.parent.namespaces)
+//@   loop 0
+//@     invariant 0 - 1 <= #k && #k < len($PNS$) || (len($PNS$) == 0 && #k == 0 - 1)
+//@     invariant cursor.parent == old(cursor.parent) && $PNS$ == old($PNS$) && $NSOK(cursor)$ && $NSOK(cursor.parent)$ && arr(cursor.namespaces) != arr($PNS$)
+//@     invariant pos >= pos0 && $NSPOS(cursor, pos)$ && len(cursor.namespaces) >= old(len(cursor.namespaces)) && wf(cursor.namespaces)
+//@     invariant arr(cursor.namespaces) == old(arr(cursor.namespaces)) || fresh(cursor.namespaces)
+//@     invariant forall k Int :: 0 <= k && k < old(len(cursor.namespaces)) ==> cursor.namespaces[k] == old(cursor.namespaces[k])
+//@     invariant forall k Int :: old(len(cursor.namespaces)) <= k && k < len(cursor.namespaces) ==> fresh(cursor.namespaces[k]) && cursor.namespaces[k].pos > pos0
+//@     invariant forall k Int :: { $PNS$[k] } 0 <= k && k <= #k ==> exists j Int :: 0 <= j && j < len(cursor.namespaces) && nsPrefix(cursor.namespaces[j].node) == nsPrefix($PNS$[k].node)
+//@     decreases len($PNS$) - #k
